@@ -4,7 +4,7 @@ NOTES = ("Static analysis only: every check re-extracts a typed AST + CFG of the
          "(anchor vanished, construct not understood). Clauses that are not decided are listed per property in level_note.")
 
 ENGINES = [
-    {"name": "engine B (synchronisation skeleton)", "path": "engine/sync.py", "serves_properties": ["C10", "C11"],
+    {"name": "engine B (synchronisation skeleton)", "path": "engine/sync.py", "serves_properties": ["C10", "C11", "C06"],
      "kind_free_text": "lock-state dataflow over the CFG, wait/notify extraction, predicate polarity tables"},
     {"name": "tlxir", "path": "tools/tlxir.cc", "serves_properties": ["C15"],
      "kind_free_text": "clang LibTooling extractor: typed AST with resolved callees, template instantiations, clang CFG -> JSON"},
@@ -155,6 +155,22 @@ CLAIMS["C08"] = dict(
           "MIDDLE-LEXI (found and fixed: partition split runs of equal elements by key only, violating the lower-sequence-first clause on 45808 of 411879 small inputs), "
           "TWIN-AGREE between multisequence_partition and multisequence_selection (any one-sided change of a guard in the duplicated refinement is reported)."),
     note=(TRUST + "Not decided: exactness of the returned rank, left <= right, selection's value/offset (numeric refinement). TWIN-AGREE exceptions are frozen with reasons in rules/c08.py; a change made identically to both copies is not seen by it."),
+)
+
+CLAIMS["C06"] = dict(
+    level="other",
+    technique="static analysis: construct/destroy pairing on the raw buffer by CFG dominance, barrier-phase rule (own-slot write / barrier / cross-slot read / barrier / release) with value-set handling of the splitting-algorithm branches, fork/join and capture rules, Stable propagation through the instantiated call chain",
+    text=("TEMP-DESTROY (found and fixed: temporaries were never destroyed), BARRIER-PHASES, BARRIER-BALANCE, FORK-JOIN, INDEX-BY-COPY, STABLE-PROPAGATE "
+          "(stable entry point -> stable_sort + stable multiway merge), SPLIT-INDEX-BOUND. Necessary conditions of data-race freedom, termination at the barriers, "
+          "stability and the 'every temporary copy is destroyed' clause."),
+    note=(TRUST + "Not decided: sortedness / permutation (values; rests on C05, C08), splitting arithmetic, full data-race freedom. The OpenMP branch is not compiled in the witness."),
+)
+CLAIMS["C07"] = dict(
+    level="other",
+    technique="static analysis: definite-initialisation rule for the split tables (no fill inside a possibly empty loop), early-return and advancement rules, fork/join and worker-effect rules, Stable propagation and front-end agreement over the instantiated AST",
+    text=("SPLIT-DEFINITE-INIT, ZERO-LENGTH, ADVANCE-EXACT (three genuine defects found and fixed: one thread with a partial merge, size 0, inputs over-advanced with sampling "
+          "splitting), FORK-JOIN, INDEX-BY-COPY, WORKER-WRITES, STABLE-PROPAGATE for base and all four front ends, FALLBACK-SWITCH."),
+    note=(TRUST + "Not decided: equality with the sequential result and disjointness of the output windows (depend on partition values, see C08)."),
 )
 
 NOT_APPLICABLE = {}
